@@ -17,7 +17,7 @@ BUDGET = {"quick": 50, "thorough": 900}
 RULE = (
     "a worker with run_health_check_server=True (seeded address/port/endpoint, 1-3 queues, a stream of jobs) on the in-memory "
     "broker; the server runs on the stdlib asyncio Server class over simulated TCP. Seeded HTTP clients: well-formed GET on the "
-    "endpoint, other paths, other methods, truncated heads, binary, 1 MiB bodies, a valid request split across 2-5 segments (equal parts or seeded cut positions, biased to the last five bytes), "
+    "endpoint, other paths, other methods, truncated heads, binary, 1 MiB bodies, GETs during the graceful shutdown while an actor still runs (after a consumer failure: still 503), a valid request split across 2-5 segments (equal parts or seeded cut positions, biased to the last five bytes), "
     "1-50 simultaneous connections, connections left idle; a consumer failure (consume() raises) at a seeded call, also while "
     "connections are open; connects before run(), during it and after it returned. Oracle: with H(t) = OK until the first "
     "consumer failure and UNHEALTHY after, a complete single-segment GET on the endpoint arriving at t gets 200/503 per H(t) "
@@ -49,6 +49,13 @@ def gen(rng, broker, tier):
     fail = None
     if rng.random() < 0.5:
         fail = {"nth_consume": rng.randint(1, 6)}
+    if rng.random() < 0.4:
+        # an actor still running when the worker is told to stop: the port stays open during the graceful shutdown,
+        # and requests arrive in that window
+        jobs.append({"id": "jtail", "name": "a0", "queue": "q0", "at_us": rng.randint(2_200_000, 2_900_000), "store_result": False,
+                     "use_bucket": False, "beh": [{"do": "return", "dur_us": rng.randint(1_000_000, 1_900_000)}]})
+        for _ in range(rng.randint(1, 4)):
+            clients.append({"kind": "get", "at_us": rng.randint(3_050_000, 3_900_000), "n": 1, "parts": 2, "cuts": None, "hold_us": 0})
     return {"endpoint": endpoint, "port": rng.choice([8080, 1, 65535, 10101]), "address": rng.choice(["0.0.0.0", "127.0.0.1", "sim-host"]),
             "clients": clients, "jobs": jobs, "nq": nq, "fail": fail, "run_us": 3_000_000,
             "knobs": {"step_cost": rng.choice([0, 0, 1, "rand"]),
@@ -212,6 +219,16 @@ async def _main(sim, sc, out):
             continue
         if outside:
             V.append(violation("port-open-outside-run", f"C20/mem/connect-succeeded-{'before' if a['at'] < run_state['started'] else 'after'}-run"))
+            continue
+        arrival0 = (a.get("sent") or a["at"])
+        if (not a.get("idle") and a["kind"] in ("get", "burst", "late-request") and tf is not None and arrival0 > tf + 5500
+                and t_sig + 20_000 < arrival0 < run_state["returned"] - 20_000):
+            # graceful shutdown in progress (an actor is still running): a consumer failure stays reported
+            interesting = True
+            probe(out, "get-during-graceful-shutdown-after-failure")
+            if a["status"] != "503":
+                V.append(violation("wrong-status", f"C20/mem/get-answered-{a['status']}-expected-503/during-graceful-shutdown",
+                                   raw=a["raw"], after_failure_us=arrival0 - tf, after_stop_us=arrival0 - t_sig))
             continue
         if a.get("idle") or not during:
             continue
